@@ -1,6 +1,8 @@
 import HappyProofs.C17.PBProps
 import HappyProofs.C17.ChainReach3
 import HappyProofs.C17.MLMerge
+import HappyProofs.C17.MLConv
+import HappyProofs.C17.MLSched
 /-!
 # C17 — property theorems
 
@@ -160,13 +162,138 @@ theorem ml_merge_order_independent (n : Nat) (P : ML.Version → Prop) (hc : ML.
   simp only [List.nil_append] at m1 m2
   exact ML.isMax_unique n P hc l1 l2 h1 hset _ _ m1 m2
 
-/-- full multi-leader convergence (not proved as a run-level theorem: needs the ghost "set of
-    versions seen" invariant tying every replica's version to `mergeAll` of what was delivered to it,
-    and coherence derived from positive message latency) -/
-def ml_quiescent_convergence_full : Prop :=
-  ∀ (n nk : Nat), 2 ≤ n → ∀ (acts : List Act),
-    ML.quiescentB (ML.run (ML.init n nk) acts) = true →
-    ∀ i j k, i < n → j < n → (ML.run (ML.init n nk) acts).store i k = (ML.run (ML.init n nk) acts).store j k
+/-! ### run level
+
+`ML.created s acts` is the list of `(key, version)` pairs stamped by the client writes of the run
+(`cw` deliveries at an existing node; the version carries the write value, the simulated clock `now`,
+the writer and the writer's ticked vector clock).  The coherence hypothesis is stated on that list, per
+key: vector-clock dominance implies the `(timestamp, writer, own counter)` order, and two versions of
+one writer with one timestamp are causally ordered or equal.  It is implied by "distinct
+`(timestamp, writer)` pairs and causally later ⇒ strictly later timestamp"
+(`ml_coherent_of_distinct_stamps`), and it is *derived* from the schedule-level condition "the clock
+never goes backwards and a leader stamps a write strictly after the timestamps of the versions it has
+received" — positive `Replicate` latency — (`ml_coherent_of_positive_latency`,
+giving `ml_quiescent_convergence_positive_latency` with no hypothesis on the versions); it cannot be
+dropped (`ml_convergence_needs_coherence`).
+
+The invariant behind the theorems (`ML.InvC`, preserved by every action: `ML.step_inv`, `ML.run_inv`):
+every version held, carried by a message (`Replicate`, anti-entropy request / response items) or by a
+handler is one of the written ones; a replica's store is the value of its version; and for every write
+handler past its first segment every replica `i` is *covered* — its version of the key is already
+`≥` the written one in the total order, or the `Replicate` to `i` is still undelivered, or the
+`_handle_replicate` process at `i` has not finished.  `_install` is `mergeOpt`, which under coherence
+only moves a replica's version up (`ML.ge_merge`), so "covered" survives every other install, in any
+order and with any duplication (anti-entropy re-delivers versions arbitrarily often). -/
+
+/-- At quiescence every replica holds, for every key, the **greatest written version**: its version
+    is one of the written ones and no written version of that key is above it; a replica has no
+    version of a key only if no version of that key was written.  Every action list. -/
+theorem ml_quiescent_holds_max (n nk : Nat) (acts : List Act)
+    (hcoh : ∀ k, ML.Coherent n (fun v => (k, v) ∈ ML.created (ML.init n nk) acts))
+    (hq : ML.quiescentB (ML.run (ML.init n nk) acts) = true) (i : Nat) (hi : i < n) (k : Nat) :
+    (∀ v, ML.WrittenC (ML.run (ML.init n nk) acts).core k v →
+      ∃ u, (ML.run (ML.init n nk) acts).vers i k = some u ∧ ¬ ML.vlt u v) ∧
+    (∀ u, (ML.run (ML.init n nk) acts).vers i k = some u → ML.WrittenC (ML.run (ML.init n nk) acts).core k u) := by
+  have hinv : ML.Inv (fun k v => (k, v) ∈ ML.created (ML.init n nk) acts) (ML.run (ML.init n nk) acts) :=
+    ML.run_inv acts (ML.init n nk) hcoh (ML.init_inv n nk) (fun _ h => h)
+  have hn : (ML.run (ML.init n nk) acts).n = n := ML.run_n _ _
+  exact ⟨fun v hv => ML.quiescent_ge _ hinv hq k v hv i (by rw [hn]; exact hi), fun u hu => hinv.versW i k u hu⟩
+
+/-- **Multi-leader quiescent convergence, run level.**  For every action list — client writes and
+    reads at any leaders, clock readings, anti-entropy ticks between any pairs, `Replicate` and
+    anti-entropy messages delivered in any order, handlers resumed in any order — whose written versions
+    are coherent: once every message is delivered and every handler has finished, all replicas hold the
+    same version and the same value for every key. -/
+theorem ml_quiescent_convergence (n nk : Nat) (acts : List Act)
+    (hcoh : ∀ k, ML.Coherent n (fun v => (k, v) ∈ ML.created (ML.init n nk) acts))
+    (hq : ML.quiescentB (ML.run (ML.init n nk) acts) = true) (i j k : Nat) (hi : i < n) (hj : j < n) :
+    (ML.run (ML.init n nk) acts).vers i k = (ML.run (ML.init n nk) acts).vers j k ∧
+    (ML.run (ML.init n nk) acts).store i k = (ML.run (ML.init n nk) acts).store j k := by
+  have hinv : ML.Inv (fun k v => (k, v) ∈ ML.created (ML.init n nk) acts) (ML.run (ML.init n nk) acts) :=
+    ML.run_inv acts (ML.init n nk) hcoh (ML.init_inv n nk) (fun _ h => h)
+  have hn : (ML.run (ML.init n nk) acts).n = n := ML.run_n _ _
+  exact ML.quiescent_agree _ (by rw [hn]; exact hcoh) hinv hq i j k (by rw [hn]; exact hi) (by rw [hn]; exact hj)
+
+/-- the coherence hypothesis in its plain reading: no two written versions of a key share a
+    `(timestamp, writer)` pair, and a causally later version carries a strictly later timestamp
+    (positive message latency, non-decreasing clock) -/
+theorem ml_coherent_of_distinct_stamps (n : Nat) (P : ML.Version → Prop)
+    (hd : ∀ a b, P a → P b → a.ts = b.ts → a.writer = b.writer → a = b)
+    (hl : ∀ a b, P a → P b → ML.dominates n b.vc a.vc = true → a.ts < b.ts) : ML.Coherent n P :=
+  ⟨fun a b ha hb h => Or.inl (hl a b ha hb h), fun a b ha hb e1 e2 => Or.inl (hd a b ha hb e1 e2)⟩
+
+/-- **Coherence from positive latency.**  If the clock readings of the run never decrease and every
+    client write at a leader `i` is stamped strictly after the timestamps of all versions delivered to
+    `i` in `Replicate` messages before it (`ML.schedOK`, starting from "nothing heard"; this is what a
+    network latency ≥ 1 ns gives: the write happens no earlier than those deliveries, each strictly
+    after its version was stamped), the written versions are coherent — for every action list.
+    (Anti-entropy messages are unconstrained: they do not merge vector clocks.) -/
+theorem ml_coherent_of_positive_latency (n nk : Nat) (acts : List Act)
+    (hs : ML.schedOK (ML.init n nk) (fun _ => 0) acts = true) (k : Nat) :
+    ML.Coherent n (fun v => (k, v) ∈ ML.created (ML.init n nk) acts) := by
+  obtain ⟨hb', h⟩ := (ML.run_sched acts (ML.init n nk) [] _ (ML.init_inv n nk) (ML.cinv_init n 0) hs).2
+  have hn : (ML.run (ML.init n nk) acts).n = n := ML.run_n _ _
+  rw [hn, List.nil_append] at h
+  exact ML.coherent_of_map n _ (ML.cinv_coherent h) k
+
+/-- **Multi-leader quiescent convergence under positive latency** — no hypothesis on the versions:
+    for every action list whose clock never goes backwards and whose `Replicate` messages take
+    positive time, in any delivery order and with any anti-entropy traffic, at quiescence all replicas
+    hold the same version and the same value for every key. -/
+theorem ml_quiescent_convergence_positive_latency (n nk : Nat) (acts : List Act)
+    (hs : ML.schedOK (ML.init n nk) (fun _ => 0) acts = true)
+    (hq : ML.quiescentB (ML.run (ML.init n nk) acts) = true) (i j k : Nat) (hi : i < n) (hj : j < n) :
+    (ML.run (ML.init n nk) acts).vers i k = (ML.run (ML.init n nk) acts).vers j k ∧
+    (ML.run (ML.init n nk) acts).store i k = (ML.run (ML.init n nk) acts).store j k :=
+  ml_quiescent_convergence n nk acts (ml_coherent_of_positive_latency n nk acts hs) hq i j k hi hj
+
+/-- two leaders, key 0: `7` written at leader 0 (t = 10) and `8` at leader 1 (t = 12) concurrently;
+    leader 0 receives `8`, then writes `9` (t = 25, causally after both); leader 1 receives the
+    `Replicate` of `9` *before* the one of `7`; an anti-entropy round 1 → 0 re-delivers `9`. -/
+def mlWitness : List Act :=
+  [.tick 10, .cw 0 0 0 7, .tick 12, .cw 1 1 0 8, .rs 0, .rs 1, .tick 20, .dl 1, .rs 2, .tick 25, .cw 2 0 0 9, .rs 3,
+   .tick 30, .dl 2, .rs 4, .dl 0, .rs 0, .rs 1, .rs 3, .ae 1 0, .rs 6, .dl 3]
+
+/-- non-vacuity: the run is accepted, quiescent, its three written versions are coherent (checked by
+    the executable `coherentB`, sound by `ML.coherentB_sound`), and both replicas end on `9` -/
+example :
+    ML.quiescentB (ML.run (ML.init 2 1) mlWitness) = true ∧ (ML.run (ML.init 2 1) mlWitness).err = none ∧
+    (ML.created (ML.init 2 1) mlWitness).map (fun kv => (kv.1, kv.2.val, kv.2.ts, kv.2.writer)) =
+      [(0, 7, 10, 0), (0, 8, 12, 1), (0, 9, 25, 0)] ∧
+    ML.coherentB 2 ((ML.created (ML.init 2 1) mlWitness).map (·.2)) = true ∧
+    (ML.run (ML.init 2 1) mlWitness).store 0 0 = some 9 ∧ (ML.run (ML.init 2 1) mlWitness).store 1 0 = some 9 := by
+  decide
+
+example : ∀ k, ML.Coherent 2 (fun v => (k, v) ∈ ML.created (ML.init 2 1) mlWitness) :=
+  ML.coherentB_sound 2 _ (by decide)
+
+/-- … and the schedule condition holds of it (ticks 10 ≤ 12 ≤ 20 ≤ 25 ≤ 30; leader 0 writes `9` at 25
+    after having received the version stamped 12), while the incoherent run below violates it -/
+example : ML.schedOK (ML.init 2 1) (fun _ => 0) mlWitness = true := by decide
+
+/-- three leaders, the clock read backwards (10, then 5, then 7): `1` at leader 0 (t = 10), `2` at
+    leader 1 (t = 5) after it has received `1`, `3` at leader 2 (t = 7) concurrently.  Dominance puts
+    `1 < 2`, last-writer-wins puts `2 < 3 < 1`: a cycle. -/
+def mlIncoherentWitness : List Act :=
+  [.tick 10, .cw 0 0 0 1, .rs 0, .dl 0, .rs 1, .tick 5, .cw 1 1 0 2, .rs 2, .tick 7, .cw 2 2 0 3, .rs 3,
+   .dl 2, .rs 4, .dl 4, .rs 5, .dl 1, .rs 6, .dl 3, .rs 7, .dl 5, .rs 8, .rs 0, .rs 2, .rs 3]
+
+/-- the coherence hypothesis cannot be dropped: without it (timestamps that do not follow causality)
+    a quiescent run leaves leaders 0 and 1 on `3` and leader 2 on `2`.  This refutes the statement
+    that was carried as `ml_quiescent_convergence_full` (quiescence alone ⇒ agreement). -/
+theorem ml_convergence_needs_coherence :
+    ¬ (∀ (n nk : Nat), 2 ≤ n → ∀ (acts : List Act),
+        ML.quiescentB (ML.run (ML.init n nk) acts) = true →
+        ∀ i j k, i < n → j < n →
+          (ML.run (ML.init n nk) acts).store i k = (ML.run (ML.init n nk) acts).store j k) := by
+  intro h
+  have h1 := h 3 1 (by decide) mlIncoherentWitness (by decide) 0 2 0 (by decide) (by decide)
+  revert h1
+  decide
+
+example : (ML.run (ML.init 3 1) mlIncoherentWitness).err = none ∧
+    ML.coherentB 3 ((ML.created (ML.init 3 1) mlIncoherentWitness).map (·.2)) = false ∧
+    ML.schedOK (ML.init 3 1) (fun _ => 0) mlIncoherentWitness = false := by decide
 
 /-- non-vacuity of `Coherent`: three versions of one key — a, b concurrent, c causally after a —
     satisfy it, and both merge orders give c. -/
